@@ -506,7 +506,6 @@ theorem scan_spec (lossy : Bool) (buf mem0 : Buf) (len sdst : Nat) (hp : Padded 
           rw [hview]
           exact Post_map buf mem0 sdst _ _ _ _ this
 
-def padTail : Buf := #[120, 34, 120] ++ Array.replicate 61 (0 : UInt8)
 theorem padTail_size : padTail.size = 64 := by decide
 theorem padTail_0 : padTail[0]? = some 120 := by decide
 theorem padTail_1 : padTail[1]? = some 34 := by decide
